@@ -99,6 +99,9 @@ async def load_store(rig, conn, events, chunk=50):
 _subno = [0]
 
 
+HOSTILE_SUB_IDS = [":feed%d", "thread [:%d]", "a :b%d c", "x'%d", 'q"%d', "%%s %d", "é %d", "--%d", "/*%d*/", "inbox-:%d", "%d;", "\\%d", "{%d}", " :name%d", "%d\n"]
+
+
 async def run_req(rig, conn, filters, sub_id=None, close=True, timeout=30.0):
     """
     Issue one REQ and wait for its answer. Returns dict:
@@ -108,6 +111,9 @@ async def run_req(rig, conn, filters, sub_id=None, close=True, timeout=30.0):
     if sub_id is None:
         _subno[0] += 1
         sub_id = "q%d" % _subno[0]
+        if _subno[0] % 9 == 4:
+            # the subscription id is client data as well: none of these may change what a REQ returns
+            sub_id = HOSTILE_SUB_IDS[(_subno[0] // 9) % len(HOSTILE_SUB_IDS)] % _subno[0]
     n0 = rig.rec.n
     await conn.cmd(["REQ", sub_id] + list(filters), timeout=timeout)
     # wait for EOSE / NOTICE / exit
